@@ -46,7 +46,7 @@ PROPS = {
         explanation='version choice, query/whitespace-tag version extraction for EVERY policy pair and friendly text, stickiness, disabled pass-through and exact plaintext recovery as theorems (Props.C16); tied to version.go/query.go/whitespace.go/send.go/receive.go by differential runs over policy pairs (full 64x64 product in the thorough tier) and offer forms',
         assumptions=['plain-text exactness needs the first occurrence of the tag header in text++tag to be at |text| (the 16-byte header has period 15: inherent to the tag format)']),
     'C18': dict(
-        module='Props.C18', level='proof',
+        module='Props.C18', extra_modules=['Props.C18Api'], level='proof',
         profiles=dict(quick=[('lifecycle', 15, 1), ('lifecyclebfs', 400, 1)], thorough=[('lifecycle', 120, 8), ('lifecyclebfs', 3000, 1), ('lifecyclex', 5000, 1), ('life', 150, 4)]),
         explanation='exact effect of the three writers of the message state on state and security events, refusal in the finished state, queueing under required encryption (Props.C18); writers regenerated from /repo as facts; Go oracle over whole lifecycle histories: events exactly on IsEncrypted transitions, each text delivered at most once plus at most one marked resend, queued texts in order',
         assumptions=['retransmission discipline over whole histories is decided by the oracle + correspondence of the resend bookkeeping, not by a theorem']),
